@@ -14,6 +14,7 @@ from . import core
 from .core import Sym, SInt, SReal, SBool, ite, s_and, s_or, s_not, is_sym, Inconclusive
 
 GRAD_ENABLED = [True]
+INFERENCE_MODE = [False]      # torch.inference_mode(): tensors created inside are "inference tensors"
 
 
 def _uf(f, nin):
@@ -149,6 +150,25 @@ class Node:
 
 _ids = itertools.count()
 
+NARROW_FLOATS = ("float32", "float16", "bfloat16")
+_rnd_narrow = z3.Function("round_to_narrow_float", z3.RealSort(), z3.RealSort())
+
+
+def _narrow_float(v):
+    """float64 -> float32/16 conversion: a concrete value is rounded by numpy; a symbolic real goes through an uninterpreted
+    rounding function (the solver is free to pick a value float32 cannot represent; counterexamples are replayed on real torch).
+    Integer-valued cells (one-hot entries, small counts) are exact."""
+    if isinstance(v, (SInt, SBool, bool, int, np.integer)):
+        return v
+    if isinstance(v, core.SLog):
+        return v
+    if isinstance(v, SReal):
+        return core.lift(_rnd_narrow(v.z))
+    if isinstance(v, (float, Fraction)):
+        f = float(np.float32(float(v)))
+        return v if f == v else f
+    return v
+
 
 _PENDING_NG = []
 
@@ -181,6 +201,7 @@ class Arr:
         self.requires_grad = bool(requires_grad) or node is not None
         self.id = next(_ids)
         self.device = "cpu"
+        self._inference = INFERENCE_MODE[0]
 
     # ---- construction helpers
     def _new(self, a, dtype=None):
@@ -188,6 +209,9 @@ class Arr:
 
     def _mk(self, a, parents, bw, dtype=None):
         track = GRAD_ENABLED[0] and builtins.any(isinstance(p, Arr) and p.requires_grad for p in parents)
+        if track and not INFERENCE_MODE[0] and builtins.any(isinstance(p, Arr) and getattr(p, "_inference", False) and not p.requires_grad for p in parents):
+            # torch: an inference tensor (created under torch.inference_mode) cannot take part in an autograd graph later
+            raise RuntimeError("Inference tensors cannot be saved for backward. To work around you can make a clone to get a normal tensor and use it in autograd.")
         return type(self)(a, dtype=dtype or self.dtype, node=Node(parents, bw) if track else None)
 
     def _nograd(self, what):
@@ -256,6 +280,10 @@ class Arr:
 
     def tolist(self):
         return self.a.tolist()
+
+    def tobytes(self):
+        # contents as a hashable byte string (cache keys); symbolic cells contribute their term
+        return repr([str(core.zn(v)) if isinstance(v, Sym) else repr(v) for v in self.a.flat]).encode()
 
     # ---- indexing
     def _prep_key(self, key):
@@ -475,12 +503,19 @@ class Arr:
     def __ge__(self, o):
         return self._cmp(o, _ge)
 
+    def _is_str_array(self):
+        return self.a.size > 0 and builtins.all(isinstance(v, str) for v in self.a.flat)
+
     def __eq__(self, o):
+        if isinstance(o, str) and self._is_str_array():          # numpy: element-wise comparison of a string array with a string
+            return type(self)(_uf(lambda v: v == o, 1)(self.a), dtype="bool")
         if o is None or isinstance(o, str):
             return False
         return self._cmp(o, _eq)
 
     def __ne__(self, o):
+        if isinstance(o, str) and self._is_str_array():
+            return type(self)(_uf(lambda v: v != o, 1)(self.a), dtype="bool")
         if o is None or isinstance(o, str):
             return True
         return self._cmp(o, _ne)
@@ -779,6 +814,8 @@ class Arr:
         if dt in INT_DTYPES and dt != "bool" and self.dtype not in INT_DTYPES and a.size:
             # float -> integer conversion truncates toward zero (symbolic reals included)
             a = _uf(lambda v: core.s_int(v) if isinstance(v, (float, Fraction, core.SReal)) and not isinstance(v, core.SLog) else v, 1)(a)
+        elif str(self.dtype) == "float64" and dt in NARROW_FLOATS and a.size:
+            a = _uf(_narrow_float, 1)(a)
         r = self._mk(a, [self], lambda g: [g], dtype=dt)
         return r
 
@@ -802,6 +839,8 @@ class Arr:
 
     def astype(self, dt):
         dt = _dtype_name(dt)
+        if str(self.dtype) == "float64" and dt in NARROW_FLOATS and self.a.size:
+            return type(self)(_uf(_narrow_float, 1)(self.a), dtype=dt)
         if dt in INT_DTYPES and dt != "bool":
             # float -> int truncation only for concrete floats
             f = _uf(lambda v: (core.s_int(v) if isinstance(v, (float, Fraction)) or (isinstance(v, core.SReal) and not isinstance(v, core.SLog)) else (v._n() if isinstance(v, SBool) else (int(v) if isinstance(v, (bool, np.bool_)) else v))), 1)
